@@ -682,3 +682,12 @@ func (d *Driver) Observe(buckets, keys []string) (Obs, []Diff) {
 	}
 	return obs, diffs
 }
+
+// RawVersionID returns the implementation's id for a canonical version id (for oracles that
+// look into the database).
+func (d *Driver) RawVersionID(c string) string {
+	if r := d.rawVID(c); r != nil {
+		return *r
+	}
+	return ""
+}
